@@ -332,6 +332,45 @@ func (x *Exec) evalSpecCall(st *State, e *ast.CallExpr) *Value {
 		t := x.astType(ft)
 		return x.convert(st, x.eval(st, e.Args[0]), t, e)
 	}
+	// pkg.Func(args): a library function the engine has a model for (the same
+	// model the program's own calls of it get), non-variadic only
+	if sel, isSel := unparen(e.Fun).(*ast.SelectorExpr); isSel {
+		if id, isId := sel.X.(*ast.Ident); isId {
+			var pkgT *types.Package
+			if imp := x.eng.findImport(id.Name); imp != nil {
+				pkgT = imp
+			} else {
+				for _, imp := range x.eng.pkg.Types.Imports() {
+					if imp.Name() == id.Name {
+						pkgT = imp
+					}
+				}
+			}
+			if pkgT != nil {
+				if fo, isFn := pkgT.Scope().Lookup(sel.Sel.Name).(*types.Func); isFn {
+					sig := fo.Type().(*types.Signature)
+					if !sig.Variadic() && sig.Params().Len() == len(e.Args) && sig.Results().Len() >= 1 {
+						var args []*Value
+						for i, a := range e.Args {
+							v := x.eval(st, a)
+							pt := sig.Params().At(i).Type()
+							if v.L == nil {
+								v = x.convertConst(v, pt)
+							} else {
+								v = x.coerce(st, v, pt)
+							}
+							args = append(args, v)
+						}
+						if outs, ok := x.libCall(st, pkgT.Path()+"."+sel.Sel.Name, nil, args, sig, e); ok && len(outs) >= 1 {
+							return outs[0]
+						}
+					}
+				}
+			}
+		}
+		x.fail("spec: unsupported call %s", x.eng.srcText(e))
+		return x.constInt(0)
+	}
 	fn, ok := unparen(e.Fun).(*ast.Ident)
 	if !ok {
 		x.fail("spec: unsupported call %s", x.eng.srcText(e))
